@@ -413,6 +413,8 @@ struct SctpInner {
 
     // Inbound stream state for ordered delivery
     inbound_streams: Mutex<HashMap<u16, InboundStream>>,
+    // DCEP messages spanning several DATA chunks (long label / protocol), per stream
+    dcep_reassembly: Mutex<HashMap<u16, BytesMut>>,
 
     // PR-SCTP: Advanced Peer Ack Point (RFC 3758)
     advanced_peer_ack_tsn: AtomicU32,
@@ -869,6 +871,7 @@ impl SctpTransport {
                 key
             },
             inbound_streams: Mutex::new(HashMap::new()),
+            dcep_reassembly: Mutex::new(HashMap::new()),
             advanced_peer_ack_tsn: AtomicU32::new(0),
             peer_cumulative_ack: AtomicU32::new(0),
             forward_tsn_pending: AtomicBool::new(false),
@@ -2841,7 +2844,26 @@ impl SctpInner {
                 // deliverable, but DCEP messages arrive before any data
                 // channel exists, so there shouldn't be anything to deliver.
             }
-            self.handle_dcep(stream_id, user_data).await?;
+            // A DCEP message is fragmented like any other when it exceeds one
+            // chunk: collect it from its B fragment to its E fragment.
+            let (b_bit, e_bit) = ((flags & 0x02) != 0, (flags & 0x01) != 0);
+            let message = if b_bit && e_bit {
+                user_data
+            } else {
+                let mut partial = self.dcep_reassembly.lock();
+                let buf = partial.entry(stream_id).or_default();
+                if b_bit {
+                    buf.clear();
+                } else if buf.is_empty() {
+                    return Ok(());
+                }
+                buf.extend_from_slice(&user_data);
+                if !e_bit {
+                    return Ok(());
+                }
+                partial.remove(&stream_id).unwrap_or_default().freeze()
+            };
+            self.handle_dcep(stream_id, message).await?;
             return Ok(());
         }
 
